@@ -1,22 +1,24 @@
 --------------------------- MODULE ReplicaRewriteEq ---------------------------
 (* Replica.tla transcribes the site space, MustRewrite and the rewriter's design from Rewrite.tla  *)
 (* (C14).  This module instantiates both and checks, as ASSUMEs over the whole one-site space      *)
-(* (every write slot x every call site), that the two agree for both values of the switch.         *)
+(* (every write slot x every call site), that the two agree for both values of the switch; and    *)
+(* the same for statements with TWO sites (every slot pair of Replica!WPairs x ordered pairs of a   *)
+(* representative set: one call per kind, plus the gaps / nestings the switch is about).           *)
 EXTENDS Naturals, Sequences, FiniteSets, TLC
 
 RepOn  == INSTANCE Replica WITH RewriteAllSites <- TRUE, RewriteOnEndpoint <- [e \in {"execute", "queued", "request"} |-> TRUE],
-                                SingleApplyPath <- TRUE, Mode <- "mc", MaxReq <- 1, MaxClock <- 1, MaxSnaps <- 1, MaxStmts <- 1,
+                                SingleApplyPath <- TRUE, SiteIndependent <- TRUE, Mode <- "mc", MaxReq <- 1, MaxClock <- 1, MaxSnaps <- 1, MaxStmts <- 1,
                                 McAlphabet <- "small", Reduced <- FALSE, log <- <<>>, clock <- 1, applied <- <<>>, db <- <<>>, started <- <<>>,
                                 snaps <- <<>>, liveAt <- <<>>, prog <- <<>>, sched <- <<>>
 RepOff == INSTANCE Replica WITH RewriteAllSites <- FALSE, RewriteOnEndpoint <- [e \in {"execute", "queued", "request"} |-> TRUE],
-                                SingleApplyPath <- TRUE, Mode <- "mc", MaxReq <- 1, MaxClock <- 1, MaxSnaps <- 1, MaxStmts <- 1,
+                                SingleApplyPath <- TRUE, SiteIndependent <- TRUE, Mode <- "mc", MaxReq <- 1, MaxClock <- 1, MaxSnaps <- 1, MaxStmts <- 1,
                                 McAlphabet <- "small", Reduced <- FALSE, log <- <<>>, clock <- 1, applied <- <<>>, db <- <<>>, started <- <<>>,
                                 snaps <- <<>>, liveAt <- <<>>, prog <- <<>>, sched <- <<>>
 RwOn   == INSTANCE Rewrite WITH PrefilterComplete <- TRUE, ImplicitNow <- TRUE, FormatOnly <- TRUE, WalkEverywhere <- TRUE,
-                                SkipOrderBy <- TRUE, LeaveStringsIdents <- TRUE, UntouchedIfNoSite <- TRUE, OnePin <- TRUE,
+                                SkipOrderBy <- TRUE, LeaveStringsIdents <- TRUE, UntouchedIfNoSite <- TRUE, OnePin <- TRUE, SiteIndependent <- TRUE,
                                 Tier <- "neg", c <- [tpl |-> "select", fill |-> "none", sites |-> <<>>]
 RwOff  == INSTANCE Rewrite WITH PrefilterComplete <- FALSE, ImplicitNow <- FALSE, FormatOnly <- FALSE, WalkEverywhere <- FALSE,
-                                SkipOrderBy <- TRUE, LeaveStringsIdents <- TRUE, UntouchedIfNoSite <- TRUE, OnePin <- TRUE,
+                                SkipOrderBy <- TRUE, LeaveStringsIdents <- TRUE, UntouchedIfNoSite <- TRUE, OnePin <- TRUE, SiteIndependent <- TRUE,
                                 Tier <- "neg", c <- [tpl |-> "select", fill |-> "none", sites |-> <<>>]
 
 Sites == {RwOn!S(ffm, cs, gap, n) : ffm \in RwOn!FnForms, cs \in RwOn!Cases_, gap \in RwOn!Gaps, n \in RwOn!Nests}
@@ -31,7 +33,17 @@ ASSUME \A ts \in Slots, s \in Sites :
          /\ RepOn!NonDetCall(s) = RwOn!NonDet(s)
          /\ RepOn!ReplacedSite(ts[2], s) = RwOn!Replaced(One(ts, s), 1)
          /\ RepOff!ReplacedSite(ts[2], s) = RwOff!Replaced(One(ts, s), 1)
-ASSUME PrintT(<<"ReplicaRewriteEq", Cardinality(Slots), Cardinality(Sites)>>)
+SlotPairs == {RepOn!WPairs[i] : i \in DOMAIN RepOn!WPairs}
+PairReps == RwOn!RepsK10 \cup {RwOn!S(<<"random", "call", "none">>, "lower", "comment", "bare"), RwOn!S(<<"datetime", "now", "none">>, "upper", "space", "isnull"),
+                               RwOn!S(<<"date", "implicit", "none">>, "lower", "none", "subq"), RwOn!S(<<"julianday", "now", "none">>, "lower", "none", "string")}
+Two(tp, a, b) == [tpl |-> tp[1], fill |-> "none", sites |-> <<[slot |-> tp[2], s |-> a], [slot |-> tp[3], s |-> b]>>]
+ASSUME \A tp \in SlotPairs : <<tp[1], tp[2]>> \in Slots /\ <<tp[1], tp[3]>> \in Slots
+ASSUME \A tp \in SlotPairs, a \in PairReps, b \in PairReps : \A i \in 1..2 :
+         /\ RepOn!ReplacedAt(RepOn!W2(tp, a, b, "none"), i) = RwOn!Replaced(Two(tp, a, b), i)
+         /\ RepOff!ReplacedAt(RepOff!W2(tp, a, b, "none"), i) = RwOff!Replaced(Two(tp, a, b), i)
+         /\ RepOn!MustAt(RepOn!W2(tp, a, b, "none"), i) = RwOn!Must(Two(tp, a, b), i)
+ASSUME \A tpl \in RwOn!Tpls : \A k \in DOMAIN RwOn!SlotsOf(tpl) : RepOn!ColScope(tpl, RwOn!SlotsOf(tpl)[k]) = RwOn!ColScope(tpl, RwOn!SlotsOf(tpl)[k])
+ASSUME PrintT(<<"ReplicaRewriteEq", Cardinality(Slots), Cardinality(Sites), Cardinality(SlotPairs), Cardinality(PairReps)>>)
 
 VARIABLE x
 Spec == x = 0 /\ [][UNCHANGED x]_x
